@@ -474,6 +474,35 @@ func (g *G) expr(want *m.Type, fuel int) *m.Expr {
 			g.stat("lz_if")
 			return g.call("lz_if", g.expr(m.Bool, fuel-1), g.expr(want, fuel-1), g.expr(want, fuel-1))
 		})
+		add(1, func() *m.Expr { // lazy functions of other arities than if / && / ||
+			sel := func() *m.Expr {
+				if g.intn("selkind", 3) == 0 {
+					return g.expr(m.Num, fuel-1)
+				}
+				return m.Lit("num", strconv.Itoa(g.intn("sel", 7)))
+			}
+			switch g.intn("widelazy", 5) {
+			case 0:
+				g.stat("lz_sel4")
+				return g.call("lz_sel4", sel(), g.expr(want, fuel-1), g.expr(want, fuel-1), g.expr(want, fuel-1))
+			case 1:
+				g.stat("lz_sel6")
+				return g.call("lz_sel6", sel(), g.expr(want, fuel-1), g.expr(want, fuel-1), g.expr(want, fuel-1), g.expr(want, fuel-1), g.expr(want, fuel-1))
+			case 2:
+				g.stat("lz_one")
+				return g.call("lz_one", g.expr(want, fuel-1))
+			case 3:
+				g.stat("h4")
+				return g.call("h4", g.expr(m.Num, fuel-1), g.expr(want, fuel-1), g.expr(m.Num, fuel-1), g.expr(want, fuel-1))
+			default:
+				if want.K == m.TNum {
+					g.stat("lz_none")
+					return g.call("lz_none", g.expr(g.anyType(1), fuel-1), g.expr(m.Num, fuel-1))
+				}
+				g.stat("lz_one")
+				return g.call("lz_one", g.expr(want, fuel-1))
+			}
+		})
 		if !g.O.NoPick {
 			add(1, func() *m.Expr {
 				g.stat("lz_pick")
